@@ -402,6 +402,9 @@ type execution struct {
 	runMask     int  // list in force when the current run of requests of one method began
 	haveRun     bool
 	sameFinding bool
+	everMask    int  // union of all lists received so far
+	trigErr     bool // some reply so far was one the client treats as an error (it then reports no list)
+	trigQuery   bool // some FAILURE answering a publickey query carried a list different from the one before
 	ack         *ackState
 	nack        string // why the latest query was not acknowledged
 	kiPrompts   int    // >=0: INFO_REQUEST outstanding with that many prompts
@@ -536,6 +539,10 @@ func (e *execution) decide() {
 		e.push(ref.Failure(maskList(r.mask), r.partial), func() {
 			e.logReply(r, "")
 			e.haveList, e.lastMask, e.lastExtra, e.lastCtx = true, r.mask, r.partial, q
+			e.everMask |= r.mask
+			if q == qPKQuery && (!e.haveDone || r.mask != e.doneMask) {
+				e.trigQuery = true
+			}
 			if q != qPKQuery {
 				e.haveDone, e.doneMask, e.doneExtra, e.doneCtx = true, r.mask, r.partial, q
 			}
@@ -598,14 +605,20 @@ func (e *execution) decide() {
 		e.push(ref.Banner("banner text\n", "en"), func() { e.log(false, "BANNER") })
 	case rExtInfo:
 		e.extra--
-		e.push(ref.ExtInfo([]ref.Ext{{Name: "server-sig-algs", Value: "ssh-ed25519"}}), func() { e.log(false, "EXT_INFO (during authentication)"); e.prevErr = true })
+		e.push(ref.ExtInfo([]ref.Ext{{Name: "server-sig-algs", Value: "ssh-ed25519"}}), func() {
+			e.log(false, "EXT_INFO (during authentication)")
+			e.prevErr = true
+			if q == qPKQuery || e.extra == 0 { // not tolerated there / the second one
+				e.trigErr = true
+			}
+		})
 	case rDisconnect:
 		e.push(ref.Disconnect(2, "scripted disconnect", ""), func() { e.log(false, "DISCONNECT"); e.kill(io.EOF) })
 	case rEOF:
 		e.log(false, "EOF")
 		e.kill(io.EOF)
 	case rUnexpected:
-		e.push(ref.Cat([]byte{80}, ref.S("c34@verif"), ref.Bool(true)), func() { e.logReply(r, ""); e.prevPlain = false; e.prevErr = true; done() })
+		e.push(ref.Cat([]byte{80}, ref.S("c34@verif"), ref.Bool(true)), func() { e.logReply(r, ""); e.prevPlain = false; e.prevErr, e.trigErr = true, true; done() })
 	case rMalformed:
 		pkt := []byte{ref.MsgAuthFailure, 0, 0}
 		if q == qService {
@@ -616,6 +629,7 @@ func (e *execution) decide() {
 			e.logReply(r, "")
 			e.prevPlain = false
 			e.prevErr = q != qPKQuery
+			e.trigErr = e.trigErr || e.prevErr
 			if q == qPKQuery {
 				// a FAILURE message, if a truncated one: the key was not accepted
 				e.refused[sp] = true
@@ -812,6 +826,12 @@ func (e *execution) request(m *ref.ClientMsg, ack *ackState) {
 			// the only list that does not name the method is one carried by a FAILURE
 			// that answered a publickey query
 			e.violate(knownQueryList, fmt.Sprintf("%s sent; latest list %v, list before the query was answered %v", desc, maskList(e.lastMask), maskList(e.doneMask)))
+		case e.trigErr && e.everMask&bit != 0:
+			// an earlier AuthMethod call of this execution ended with an error, so the client
+			// may have fallen back to any older list; an older list named the method
+			e.violate(knownErrStale, fmt.Sprintf("%s sent; latest list %v, lists so far named %v", desc, maskList(e.lastMask), maskList(e.everMask)))
+		case e.trigQuery && e.everMask&bit != 0:
+			e.violate(knownQueryList, fmt.Sprintf("%s sent; latest list %v, lists so far named %v", desc, maskList(e.lastMask), maskList(e.everMask)))
 		default:
 			how := "failure"
 			if e.doneExtra {
